@@ -96,7 +96,10 @@ PairShapes == Flatten2([i \in DOMAIN Bases |-> << <<<<2, 1>>, <<1, Bases[i] + 1>
 PairOps == << <<"pow", [k |-> Zero]>>, <<"slice", [index |-> <<<<0, 1>>>>]>>, <<"pow", [k |-> Two]>>, <<"varalong", [dim |-> 0]>> >>
 PairDescs == Flatten2([i \in DOMAIN PairShapes |-> [o \in DOMAIN PairOps |-> <<"pair", PairOps[o][1], PairOps[o][2], PairShapes[i][1], PairShapes[i][2]>>]])
 
-All == PairDescs \o UnaryDescs \o BinDescs \o DotDescs \o MMDescs \o AlongDescs \o ShapeDescs \o SliceDescs \o PatchDescs \o ConcatDescs
+(* the SAME tracked tensor in both operand slots: its gradient is the sum of both partial derivatives *)
+SelfGDescs == Flatten2([i \in 1..3 |-> [f \in 1..4 |-> <<"selfg", <<"add", "sub", "mul", "div">>[f], <<<<>>, <<3>>, <<2, 2>>>>[i]>>]])
+              \o << <<"selfg", "matmul", <<2, 2>>>>, <<"selfg", "matmul", <<2, 3, 3>>>>, <<"selfg", "dot", <<3>>>>, <<"selfg", "dot", <<2, 2>>>> >>
+All == PairDescs \o SelfGDescs \o UnaryDescs \o BinDescs \o DotDescs \o MMDescs \o AlongDescs \o ShapeDescs \o SliceDescs \o PatchDescs \o ConcatDescs
 Descs == MyCases(All)
 
 (* y = op(...), z = y * g, back-propagate from z.  n: number of operands *)
@@ -127,6 +130,10 @@ PairCase(op, par, s1, s2) ==
 
 Build(d) ==
   CASE d[1] = "pair" -> PairCase(d[2], d[3], d[4], d[5])
+    [] d[1] = "selfg" ->
+         LET yd == YDims(d[2], NoPar, <<d[3], d[3]>>)
+         IN MkCase("c02", d[2] \o "-same-object", <<In("a", d[3], TRUE), In("g", yd, FALSE)>>, <<IF d[2] = "div" THEN "nz" ELSE "any", "any">>,
+                   <<Ins(d[2], NoPar, <<1, 1>>), Ins("mul", NoPar, <<3, 2>>)>>, <<3>>, 4, FALSE)
     [] d[1] = "u" -> WithG(d[2], <<In("a", d[3], TRUE)>>, <<UDom(d[2], d[4])>>, d[2], [k |-> d[4]], d[3])
     [] d[1] = "b" -> WithG(d[2], <<In("a", d[3], d[5][1]), In("b", d[4], d[5][2])>>, BDom(d[2]), d[2], NoPar,
                            YDims(d[2], NoPar, <<d[3], d[4]>>))
